@@ -32,6 +32,7 @@ class Driver:
         if fail == 'raise-before-await':
             raise RuntimeError('handler-raises-%s' % iid)
         await _pace(resp.get('handler_delay'))
+        self.world.log('handler_return', who=handler.side + '-handler', iid=iid)
         if fail == 'raise-after-await':
             raise RuntimeError('handler-raises-%s' % iid)
 
